@@ -14,7 +14,7 @@ LEVEL_NOTE = ("theorems about putAll hold under every fault oracle; independence
               "is refuted by kernel-checked counterexamples; the general case is validated differentially (every argument "
               "alone on a copy of the world)")
 RULE = ("seeded random put worlds with 1-4 arguments mixing trashable entries, dot entries, missing paths, mount points, "
-        "named pipes, names that are not UTF-8, -f / -i with replies; each multi-argument world is also run one argument at a time "
+        "named pipes, names that are not UTF-8 or begin with '@', -f / -i with replies; each multi-argument world is also run one argument at a time "
         "on copies and the per-argument outcome (trashed / untouched, named on stderr, trash directory and recorded Path of the new "
         ".trashinfo) compared; plus forced lists where a mount point (passes the gates, cannot be moved) stands before or "
         "after trashable entries that belong in the same trash directory; plus worlds in which every exclusive create of an info "
